@@ -26,6 +26,13 @@ def irq_cases(rng, tier, n_each):
                             l = cases.patch_state(l, IFF1=iff1, IFF2=iff2, IM=im, HALT=halt)
                             if rng.chance(1, 4):
                                 l = cases.patch_state(l, SP=rng.choice([0, 1, 2, 0xFFFF]))
+                            elif rng.chance(1, 3):
+                                # the pushed return address lands on the vector table entry, on the handler or on the program
+                                # itself: which is read / written first
+                                t = l.split()
+                                i_reg, pc = int(t[5 + 16]), int(t[5 + 21])
+                                tgt = {(1, 2): ((i_reg << 8) | ((data[0] if data else 0) & 0xFE)), (1, 1): 0x38, (1, 0): pc}.get((kind, im), 0x66 if kind == 0 else pc)
+                                l = cases.patch_state(l, SP=(tgt + rng.below(5)) & 0xFFFF)
                             nst = rng.choice([1, 1, 2, 3])
                             l = cases.set_steps(cases.with_irq(l, kind, data, at=rng.below(nst)), nst)
                             lines.append(l); meta[cid] = ("irq", "kind%d im%d iff1=%d iff2=%d halt=%d data=%s" % (kind, im, iff1, iff2, halt, data))
